@@ -1028,7 +1028,7 @@ def run(tier):
           + len(timed_hist))
     R.set("distinct_step_values", len(step_values))
     R.set("superlinear_single_constructs", single_sig)
-    R.set("superlinear_families_by_signature", {k: [len(v), v[:6]] for k, v in sorted(by_sig.items())})
+    R.set("superlinear_families_by_signature", {k: [len(v), v[:40]] for k, v in sorted(by_sig.items())})
     R.set("not_measurable_recursion", not_measurable)
     R.set("largest_marginal_ratios_among_linear", ratios[:15])
     R.set("largest_lexer_ratio_vs_linear", lex_worst[:10])
